@@ -18,6 +18,9 @@ CLAIMS = {
  "C04": ("Zeroisation clause decided completely (every *_final wipes the whole context via volatile memset on all paths as last access) in every SIMD/small-table variant; constant tables vs. independently derived values. Digest equality is NOT decided.",
          "Trusts clang 14 CFG/post-dominators computed in python; a call through a volatile function pointer is not elidable.",
          "static analysis: post-dominance of volatile wipe call, constant-table comparison"),
+ "C05": ("Structural clauses only: every acyclic path of tpt_msg_send falls into one of the seven documented outcomes with the stated (return class, number of direct callback calls): at most one direct call, none when a failure is returned, each only under the flag that asks for it; packet atomicity preconditions (sizeof(packet) <= PIPE_BUF, one whole-packet write whose result is compared with that size, O_NONBLOCK pipe, read buffer a whole number of packets); dispatch only of magic+checksum verified packets with non-NULL callback, once per packet. Exactly-once / ordering / routing under concurrent senders is NOT decided.",
+         "Trusts clang 14 CFG; POSIX pipe atomicity for writes <= PIPE_BUF; infeasible paths can only add rows that must still classify.",
+         "static analysis: acyclic CFG path enumeration with per-path summaries, dominance/edge-removal reachability, compile-time probes"),
  "C07": ("Pad-wiping clause decided completely (k_ipad, k_opad, inner context wiped on every path; every local HMAC context reaches its final); no context read after final; RFC 2104 skeleton (strict block comparison, zero padding, 0x36/0x5c over whole block, inner/outer order). MAC equality is NOT decided.",
          "Trusts clang 14 CFG, typestate dataflow in rules/r_ts.py; *_final wiping its context is C04's obligation.",
          "static analysis: typestate dataflow + post-dominance + structural skeleton match"),
